@@ -2397,7 +2397,18 @@ func (d *tkC10) installOps() {
 				logs = append([]*ethtypes.Log{{Address: contract, Topics: []common.Hash{lg.Topics[0], {}}, Data: lg.Data}}, logs...)
 			}
 		}
-		msg := ethtypes.NewMessage(from, &contract, 0, big.NewInt(0), 100000, big.NewInt(0), big.NewInt(0), big.NewInt(0), nil, ethtypes.AccessList{}, false)
+		// the transaction's target: the token contract itself, or - one time in four - another contract that calls it (a
+		// wallet, router or forwarder; the log still carries the token contract's address), or none (a contract creation
+		// whose constructor makes the call)
+		to := &contract
+		switch new(big.Int).Mod(amt, big.NewInt(8)).Int64() {
+		case 1:
+			fwd := common.HexToAddress("0x00000000000000000000000000000000f02a2de2")
+			to = &fwd
+		case 5:
+			to = nil
+		}
+		msg := ethtypes.NewMessage(from, to, 0, big.NewInt(0), 100000, big.NewInt(0), big.NewInt(0), big.NewInt(0), nil, ethtypes.AccessList{}, false)
 		return r.K.Token.Hooks().PostTxProcessing(ctx, msg, &ethtypes.Receipt{Logs: logs})
 	}
 }
